@@ -6,9 +6,10 @@
   (drop/take), `readSpec` (the selected window of a byte source).
   ALG layer: the code, function by function — `BitStore.frombytes/frombuffer/tobytes/_copy/getslice_msb0/__len__`
   (bitstore.py), `Bits._setbytes_with_truncation`, the BytesIO branch of `_setauto`, `_setfile`,
-  `BitArray.__init__`'s copy, `_getbytes`, `cut`, `tofile` (bits.py), `Array.tobytes/tofile/fromfile` (array_.py).
-  Option state: `lsb0` reaches this property only through `Bits._slice` in the `cut` loop of `tofile`
-  (the window readers call `getslice_msb0` explicitly).
+  `BitArray.__init__`'s copy, `_getbytes`, `_absolute_slice`, `tofile` (bits.py), `Array.tobytes/tofile/fromfile` (array_.py).
+  Option state: none of the transcribed functions consults `options.lsb0` any more (the window readers call
+  `getslice_msb0`, `tofile` walks `_absolute_slice`); the flag stays on the wire and the model ignores it, so a
+  mode-dependence creeping back in shows as a disagreement.
   bitarray primitives are list operations: `bitarray.frombytes` = `bytesToBits`, `bitarray.tobytes` =
   `baToBytes` (a byte-at-a-time loop that zero-fills the last byte), `ba[a:b]` = Python slicing.
   Bytes are `Nat`s (< 256 wherever they come from the wire or from `baToBytes`).
@@ -122,17 +123,6 @@ def Store.getslice (s : Store) (start stop : Option Int) : Store :=
     ⟨pySlice s.buf (some t.1) (some t.2.1), none, false⟩
   | none => ⟨pySlice s.buf start stop, none, false⟩
 
-/-- `BitStore.getslice_lsb0(start, stop)` (bitstore.py:233) through `offset_slice_indices_lsb0` (bitstore.py:21)
-    for a step-less slice: `start, stop = slice.indices(len(self))`, then
-    `_bitarray[len - stop : len - start]` — the same positions counted from the other end. -/
-def Store.getsliceLsb0 (s : Store) (start stop : Option Int) : Store :=
-  let t := Py.sliceIndices start stop 1 s.len
-  ⟨pySlice s.buf (some ((s.len : Int) - t.2.1)) (some ((s.len : Int) - t.1)), none, false⟩
-
-/-- `BitStore.getslice`: rebound by `options.lsb0` (bitstring_options.py `set_lsb0`). -/
-def Store.getsliceMode (lsb0 : Bool) (s : Store) (start stop : Option Int) : Store :=
-  if lsb0 then s.getsliceLsb0 start stop else s.getslice start stop
-
 /-- `s.bin` = `slice_to_bin(None, None)` = `getslice(None, None)._bitarray.to01()`. -/
 def Store.bin (s : Store) : Bits := (s.getslice none none).buf
 
@@ -220,32 +210,33 @@ def construct (cls : Cls) (k : Src) (data : Bytes) (length offset : Option Int) 
 def bytesProp (s : Store) : Except Err Bytes :=
   if s.len % 8 ≠ 0 then .error .value else .ok s.tobytes
 
-/-- The loop of `Bits.cut(bits)` with `start = end = count = None` (bits.py:1439-1449): `start_` advances by `bits`;
-    an empty chunk ends the iteration, a short chunk is yielded and ends it.  `self._slice` is
-    `self._bitstore.getslice`, i.e. it follows `options.lsb0`. -/
-def cutLoop (lsb0 : Bool) (s : Store) (bits end_ : Nat) : Nat → Nat → List Store
+/-- `Bits._absolute_slice(start, end)` (bits.py:1052): msb0 positions whatever `options.lsb0` says;
+    `end == start` gives a fresh empty object. -/
+def absoluteSlice (s : Store) (start end_ : Nat) : Store :=
+  if end_ = start then Store.mem [] else s.getslice (some (start : Int)) (some (end_ : Int))
+
+/-- The loop of `Bits.tofile` (bits.py:1552): `for start in range(0, len(self), chunk_size):
+    f.write(self._absolute_slice(start, min(start + chunk_size, len(self))).tobytes())` — `start` advances by the
+    chunk size while it is below the length (at most `len` iterations for a positive step). -/
+def tofileLoop (s : Store) (chunk : Nat) : Nat → Nat → Bytes
   | 0, _ => []
   | fuel + 1, start =>
-    let nextchunk := s.getsliceMode lsb0 (some (start : Int)) (some ((min (start + bits) end_ : Nat) : Int))
-    if nextchunk.len = 0 then []
-    else nextchunk :: (if nextchunk.len ≠ bits then [] else cutLoop lsb0 s bits end_ fuel (start + bits))
+    if start < s.len then
+      (absoluteSlice s start (min (start + chunk) s.len)).tobytes ++ tofileLoop s chunk fuel (start + chunk)
+    else []
 
-/-- `Bits.cut(bits)`: `_validate_slice(None, None) = (0, len)`; `bits <= 0` is a ValueError.
-    (At most `len/bits + 1 ≤ len + 1` iterations.) -/
-def cut (lsb0 : Bool) (s : Store) (bits : Nat) : Except Err (List Store) :=
-  if bits = 0 then .error .value else .ok (cutLoop lsb0 s bits s.len (s.len + 1) 0)
-
-/-- `Bits.tofile(f)` (bits.py:1541) with chunk size `chunk`: `for chunk in self.cut(chunk_size): f.write(chunk.tobytes())`. -/
-def tofile (lsb0 : Bool) (chunk : Nat) (s : Store) : Except Err Bytes :=
-  (cut lsb0 s chunk).map fun cs => cs.flatMap Store.tobytes
+/-- `Bits.tofile(f)` (bits.py:1541) with chunk size `chunk`; `range()` refuses a zero step (ValueError).
+    Nothing here consults `options.lsb0`. -/
+def tofile (chunk : Nat) (s : Store) : Except Err Bytes :=
+  if chunk = 0 then .error .value else .ok (tofileLoop s chunk s.len 0)
 
 /-- `tofile` as shipped: the chunk size extracted from the working tree on this run. -/
-def tofileDefault (lsb0 : Bool) (s : Store) : Except Err Bytes := tofile lsb0 Gen.tofileChunk s
+def tofileDefault (s : Store) : Except Err Bytes := tofile Gen.tofileChunk s
 
 /-! ### ALG: Array (array_.py:366-392) — `data` is an in-memory BitArray, `isz` the item size in bits -/
 
 def arrayTobytes (data : Bits) : Bytes := (Store.mem data).tobytes
-def arrayTofile (lsb0 : Bool) (chunk : Nat) (data : Bits) : Except Err Bytes := tofile lsb0 chunk (Store.mem data)
+def arrayTofile (chunk : Nat) (data : Bits) : Except Err Bytes := tofile chunk (Store.mem data)
 
 /-- How the file object is turned into bits by `Bits(f)` in `Array.fromfile`:
     an open file goes through `_setfile(f.name)`, a BytesIO through `frombytes(getvalue())`. -/
@@ -309,8 +300,8 @@ def out {α} (f : α → String) : Except Err α → String
 def chunkOf? (s : String) : Option Nat := if s = "-" then some Gen.tofileChunk else s.toNat?
 
 /-- The observations made on one object: its bits, `tobytes()`, the `bytes` property (`!` = refused), `tofile`. -/
-def observe (lsb0 : Bool) (chunk : Nat) (s : Store) : Except Err String :=
-  (tofile lsb0 chunk s).map fun written =>
+def observe (chunk : Nat) (s : Store) : Except Err String :=
+  (tofile chunk s).map fun written =>
     bitsToWire s.bin ++ " " ++ hexOfBytes s.tobytes ++ " "
       ++ (match bytesProp s with | .ok b => hexOfBytes b | .error _ => "!") ++ " " ++ hexOfBytes written
 
@@ -335,33 +326,33 @@ def handle (args : List String) : String :=
   -- obj <cls> <kind> <data> <off> <len> <chunk> <sink> <lsb0>
   | "obj" :: cls :: kind :: data :: off :: len :: chunk :: _sink :: lsb0 :: _ =>
     match Cls.ofStr? cls, optIntOfStr? off, optIntOfStr? len, chunkOf? chunk, flagOf? lsb0 with
-    | some c, some off, some len, some ch, some m =>
+    | some c, some off, some len, some ch, some _mode =>
       if kind = "bin" ∨ kind = "cat" then
         match bitsOfStr? data with
-        | some b => out id (observe m ch (finish c (Store.mem b)))
+        | some b => out id (observe ch (finish c (Store.mem b)))
         | none => "bad-op"
       else if kind = "slc" then
         -- object = full[off : off+len] of an in-memory object (msb0 cases only; 0 ≤ off, off+len ≤ |full|)
         match bitsOfStr? data, off, len with
-        | some b, some o, some n => out id (observe m ch ((Store.mem b).getslice (some o) (some (o + n))))
+        | some b, some o, some n => out id (observe ch ((Store.mem b).getslice (some o) (some (o + n))))
         | _, _, _ => "bad-op"
       else
         match srcOf? kind, bytesOfHex? data with
-        | some k, some d => out id ((construct c k d len off) >>= observe m ch)
+        | some k, some d => out id ((construct c k d len off) >>= observe ch)
         | _, _ => "bad-op"
     | _, _, _, _, _ => "bad-op"
   -- rt <wcls> <bits> <chunk> <rcls> <rkind> <lsb0> : tofile, then read back `length = len(bits)`
   | "rt" :: _wcls :: bits :: chunk :: rcls :: rkind :: lsb0 :: _ =>
     match bitsOfStr? bits, chunkOf? chunk, Cls.ofStr? rcls, srcOf? rkind, flagOf? lsb0 with
-    | some b, some ch, some rc, some k, some m =>
-      out bitsToWire ((tofile m ch (Store.mem b)) >>= fun written =>
+    | some b, some ch, some rc, some k, some _mode =>
+      out bitsToWire ((tofile ch (Store.mem b)) >>= fun written =>
         (construct rc k written (some (b.length : Int)) none).map Store.bin)
     | _, _, _, _, _ => "bad-op"
   -- arr <dtype> <isz> <bits> <chunk> <lsb0>
   | "arr" :: _dt :: _isz :: bits :: chunk :: lsb0 :: _ =>
     match bitsOfStr? bits, chunkOf? chunk, flagOf? lsb0 with
-    | some b, some ch, some m =>
-      out id ((arrayTofile m ch b).map fun w => hexOfBytes (arrayTobytes b) ++ " " ++ hexOfBytes w)
+    | some b, some ch, some _mode =>
+      out id ((arrayTofile ch b).map fun w => hexOfBytes (arrayTobytes b) ++ " " ++ hexOfBytes w)
     | _, _, _ => "bad-op"
   -- afrom <dtype> <isz> <initial bits> <file hex> <n> <fkind>            (msb0)
   | "afrom" :: _dt :: isz :: init :: file :: n :: fk :: _ =>
@@ -372,7 +363,7 @@ def handle (args : List String) : String :=
   | "art" :: _dt :: isz :: bits :: chunk :: fk :: _ =>
     match isz.toNat?, bitsOfStr? bits, chunkOf? chunk, fkindOf? fk with
     | some isz, some b, some ch, some fk =>
-      out bitsToWire ((arrayTofile false ch b) >>= fun w => arrayFromfile [] isz w fk none)
+      out bitsToWire ((arrayTofile ch b) >>= fun w => arrayFromfile [] isz w fk none)
     | _, _, _, _ => "bad-op"
   | "big" :: _ => "skip"
   | _ => "bad-op"
